@@ -489,4 +489,219 @@ theorem image_transparent (ext : Nat → Nat) (hS : SiftContract ext) (m : Mgr) 
     · exact ht
     · exact hs
 
+/-! ### `preimage` -/
+
+/-- the body `_preimage_of` on arguments that pass its check is the call of `_image` -/
+theorem preimageBody_eq_imageF (m : Mgr) (hV : VarsBij m.tbl) (trans target : Int)
+    (rn : List (Key × Key)) (qvars : List Key)
+    (fa : Bool) (q : List Nat) (hq : mapToLevelE m.tbl qvars = .ok q) (pairs : List (Int × Int))
+    (hres : resolveRename m.tbl rn = pairs.map fun p => (Key.lvl p.1, Key.lvl p.2))
+    (hne : pairs ≠ [] → 0 < m.nvars)
+    (hov : ∀ p p', p ∈ pairs → p' ∈ pairs → p.2 ≠ p'.1) :
+    preimageBody trans target rn qvars fa m =
+      match imageF none (some pairs) [] [] q fa (2 * m.nvars + 4) trans target {} m with
+      | (.error e, m2) => (.error (if e = .fuel then .runtime else e), m2)
+      | (.ok (r, _), m2) => (.ok r, m2) := by
+  have hov' : renameOverlap (pairs.map fun p => (Key.lvl p.1, Key.lvl p.2)) = false :=
+    (renameOverlap_lvls pairs).mpr hov
+  have hav := assertValidRename_ok m hV (pairs.map fun p => (Key.lvl p.1, Key.lvl p.2))
+    (fun h => hne (fun hp => h (by rw [hp]; rfl))) hov'
+  unfold preimageBody
+  simp only [hq, hres, hav, intPairs_map_lvl, badKeys_map_lvl]
+  generalize imageF none (some pairs) [] [] q fa (2 * m.nvars + 4) trans target {} m = res
+  rcases res with ⟨_ | ⟨_, _⟩, _⟩ <;> rfl
+
+/-- what `preimage` asks of its arguments, as far as it can be said by name: declared names,
+pairwise distinct keys, no key is a value, no two keys with the same value, the target
+independent of every value.  (That the partners are neighbours is a property of the ORDER: see
+`AdjN`.) -/
+structure PreimagePreN (target : Int) (l : List (String × String)) (qs : List String) (t : Tbl) :
+    Prop where
+  keys : (l.map (·.1)).Nodup
+  decl : ∀ p ∈ l, t.vars.contains p.1 = true ∧ t.vars.contains p.2 = true
+  qdecl : ∀ s ∈ qs, t.vars.contains s = true
+  noOverlap : ∀ p p', p ∈ l → p' ∈ l → p.2 ≠ p'.1
+  injective : ∀ p p', p ∈ l → p' ∈ l → p.2 = p'.2 → p.1 = p'.1
+  indep : ∀ p ∈ l, ¬ dependsOnN t target p.2
+
+/-- in the order of `t` every renamed variable is a neighbour of its partner -/
+def AdjN (t : Tbl) (l : List (String × String)) : Prop :=
+  ∀ p ∈ l, ((lvlOf t p.1 : Int) - (lvlOf t p.2 : Int)).natAbs = 1
+
+/-- result of `preimage(trans, target, rename, qvars, forall)`, by name: a reference of the
+manager; and, PROVIDED the partners are neighbours in the order the manager is left in, of
+`Q qvars. trans ∧ rename(target)` (the target read with every variable at its partner) -/
+def PreimageDoc (fa : Bool) (qs : List String) (l : List (String × String)) (trans target : Int)
+    (t : Tbl) (r : Int) (t' : Tbl) : Prop :=
+  t'.Mem r ∧ (AdjN t' l → ∀ σ, denN t' r σ = true ↔
+    qsemN fa qs (fun τ => denN t trans τ && denN t target (fun s => τ (renN l s))) σ)
+
+/-- body of `preimage` on declared names, inside a context: a reference (the documented one when
+the partners are neighbours in this order), or abort — for ANY order -/
+theorem preimageBody_out (m0 : Mgr) (hI0 : Inv m0) (hq : Quiet m0) (hO : OrderOK m0.tbl)
+    (trans target : Int) (hu : m0.tbl.Mem trans) (hv : m0.tbl.Mem target) (fa : Bool)
+    (l : List (String × String)) (qs : List String) (hpre : PreimagePreN target l qs m0.tbl) :
+    Outcome m0 (fun r m1 => PreimageDoc fa qs l trans target m0.tbl r m1.tbl)
+      (preimageBody trans target (l.map fun p => (Key.name p.1, Key.name p.2)) (qs.map Key.name)
+        fa m0) := by
+  have hW := hI0.wf.toWF
+  have hV := hO.varsBij
+  have hnv : m0.nvars = m0.tbl.nvars := rfl
+  generalize hpairs : lvlPairs m0.tbl l = pairs
+  have hmem : ∀ x, x ∈ pairs → ∃ p, p ∈ l ∧ x = ((lvlOf m0.tbl p.1 : Int), (lvlOf m0.tbl p.2 : Int)) := by
+    intro x hx
+    rw [← hpairs] at hx
+    exact mem_lvlPairs hx
+  have hlv : ∀ p, p ∈ pairs →
+      0 ≤ p.1 ∧ p.1 < (m0.nvars : Int) ∧ 0 ≤ p.2 ∧ p.2 < (m0.nvars : Int) := by
+    intro x hx
+    obtain ⟨p, hp, rfl⟩ := hmem x hx
+    have h1 := hO.lvlOf_lt (hpre.decl p hp).1
+    have h2 := hO.lvlOf_lt (hpre.decl p hp).2
+    simp only
+    omega
+  rw [preimageBody_eq_imageF m0 hV trans target _ _ fa (qs.map (lvlOf m0.tbl))
+    (mapToLevelE_names m0.tbl qs hpre.qdecl) pairs
+    (by rw [← hpairs]; exact resolveRename_lvlPairs hO l hpre.keys hpre.decl)
+    (by
+      intro hne
+      cases hp : pairs with
+      | nil => exact absurd hp hne
+      | cons x _ =>
+        have h := hlv x (by rw [hp]; exact List.mem_cons_self)
+        omega)
+    (by
+      intro x x' hx hx' he
+      obtain ⟨p, hp, rfl⟩ := hmem x hx
+      obtain ⟨p', hp', rfl⟩ := hmem x' hx'
+      simp only at he
+      exact hpre.noOverlap p p' hp hp'
+        (lvlOf_inj hO (hpre.decl p hp).2 (hpre.decl p' hp').1 (by omega)))]
+  have hterm : (pairs.lookup (m0.nvars : Int)).getD (m0.nvars : Int) = (m0.nvars : Int) := by
+    cases hl : pairs.lookup (m0.nvars : Int) with
+    | none => rfl
+    | some x =>
+      have := (hlv _ (lookup_some_mem _ _ _ hl)).2.1
+      simp only at this
+      omega
+  have hP : ImgOKs none (some pairs) [] [] (qs.map (lvlOf m0.tbl)) id (renOf pairs)
+      (fun j => InSupp m0.tbl target j) m0.nvars :=
+    ⟨fun z hz _ => ⟨rfl, hz⟩,
+      fun j hj => ⟨renOf_eq pairs (fun p hp => (hlv p hp).2.2.1) j,
+        renOf_lt pairs m0.nvars (fun p hp => (hlv p hp).2.2.2) j (by rw [hnv]; exact hj.lt_nvars hW)⟩,
+      hterm, fun _ _ _ => rfl, fun _ _ => rfl⟩
+  have hmono : AdjN m0.tbl l → MonoOn (renOf pairs) (fun j => InSupp m0.tbl target j) := by
+    intro hadj
+    refine renOf_mono pairs _ (fun p hp => (hlv p hp).2.2.1) ?_ ?_ ?_
+    · intro x hx
+      obtain ⟨p, hp, rfl⟩ := hmem x hx
+      exact hadj p hp
+    · intro x x' hx hx' he
+      obtain ⟨p, hp, rfl⟩ := hmem x hx
+      obtain ⟨p', hp', rfl⟩ := hmem x' hx'
+      simp only at he
+      have h2 := lvlOf_inj hO (hpre.decl p hp).2 (hpre.decl p' hp').2 (by omega)
+      simp only
+      rw [hpre.injective p p' hp hp' h2]
+    · intro x hx j hj he
+      obtain ⟨p, hp, rfl⟩ := hmem x hx
+      simp only at he
+      have hdep : dependsOn m0.tbl target j := hj.dependsOn hI0.wf
+      have : lvlOf m0.tbl p.2 = j := by omega
+      rw [← this] at hdep
+      exact hpre.indep p hp ((dependsOnN_iff hW hO target hv _ (hpre.decl p hp).2).mpr hdep)
+  rcases (imageF_out none (some pairs) [] [] (qs.map (lvlOf m0.tbl)) fa id (renOf pairs)
+    (fun j => InSupp m0.tbl target j) m0.nvars (AdjN m0.tbl l) hP hmono (2 * m0.nvars + 4) m0 trans
+    target {} hI0 hq rfl hu hv (fun _ h => h) (IMemoC.empty _ _ _ _ _ _)
+    (by omega)).cases with
+    ⟨r, c, m1, he, hs, _, hp⟩ | ⟨m1, he, hs, ha⟩
+  rotate_left
+  · rw [he]
+    exact ⟨rfl, hs, ha⟩
+  rw [he]
+  refine ⟨hs, hp.mr, fun hadj1 σ => ?_⟩
+  have hadj : AdjN m0.tbl l := by
+    intro p hp
+    have := hadj1 p hp
+    unfold lvlOf at this ⊢
+    rw [hs.frame.vars] at this
+    exact this
+  have hl : m1.tbl.lift σ = m0.tbl.lift σ := by
+    unfold Tbl.lift Tbl.nameOf; rw [hs.frame.l2v]
+  have hrlt : ∀ i, i < m0.tbl.nvars → renOf pairs i < m0.tbl.nvars := fun i hi =>
+    renOf_lt pairs m0.nvars (fun p hp => (hlv p hp).2.2.2) i hi
+  have hF : LowOnly m0.tbl (fun b => den m0.tbl trans b &&
+      den m0.tbl target (fun j => b (renOf pairs j))) := by
+    intro b b' hb
+    show (den m0.tbl trans b && den m0.tbl target (fun j => b (renOf pairs j))) =
+      (den m0.tbl trans b' && den m0.tbl target (fun j => b' (renOf pairs j)))
+    rw [den_agree_ge m0.tbl hW trans hu b b' (fun i _ hi => hb i hi),
+      den_agree_ge m0.tbl hW target hv (fun j => b (renOf pairs j)) (fun j => b' (renOf pairs j))
+        (fun i _ hi => hb _ (hrlt i hi))]
+  unfold denN
+  rw [hp.den hadj, imgSem_ext hs.ext hW hu hv, hl]
+  unfold imgSem
+  refine (qsem_lift_gen hO hF fa qs hpre.qdecl σ).trans ?_
+  apply qsemN_congr
+  intro τ
+  show (den m0.tbl trans (m0.tbl.lift τ) &&
+      den m0.tbl target (fun j => m0.tbl.lift τ (renOf pairs j))) =
+    (denN m0.tbl trans τ && denN m0.tbl target (fun s => τ (renN l s)))
+  unfold denN
+  congr 1
+  apply den_agree_ge m0.tbl hW target hv
+  intro i _ hi
+  show τ (m0.tbl.nameOf (renOf pairs i)) = τ (renN l (m0.tbl.nameOf i))
+  rw [← hpairs, nameOf_renOf hO l hpre.decl hi]
+
+theorem PreimagePreN.bridge {trans target : Int} {l : List (String × String)} {qs : List String}
+    {t t' : Tbl} (hB : Bridge [trans, target] t t') (h : PreimagePreN target l qs t) :
+    PreimagePreN target l qs t' := by
+  refine ⟨h.keys, fun p hp => ?_, fun s hs => ?_, h.noOverlap, h.injective, fun p hp hh => ?_⟩
+  · rw [hB.names, hB.names]; exact h.decl p hp
+  · rw [hB.names]; exact h.qdecl s hs
+  · exact h.indep p hp ((dependsOnN_congr (hB.ops target (by simp)).2 p.2).mp hh)
+
+theorem preimage_names_eq {t : Tbl} (m : Mgr) (hm : m.tbl = t) (hO : OrderOK t) (trans target : Int)
+    (fa : Bool) (l : List (String × String)) (qs : List String) (hkeys : (l.map (·.1)).Nodup)
+    (hd : ∀ p ∈ l, t.vars.contains p.1 = true ∧ t.vars.contains p.2 = true)
+    (hqd : ∀ s ∈ qs, t.vars.contains s = true) :
+    preimage trans target (l.map fun p => (Key.name p.1, Key.name p.2)) (qs.map Key.name) fa m =
+      tryToReorder (preimageBody trans target (l.map fun p => (Key.name p.1, Key.name p.2))
+        (qs.map Key.name) fa) m := by
+  subst hm
+  unfold preimage
+  rw [qvarsByName_names hO qs hqd, renameByName_names hO l hkeys hd]
+
+/-- C09 for `preimage`: operands held by the user, renaming and quantified variables given by
+declared names.  Whether or not a reordering request is served, the call returns normally with
+the frame of every decorated operation; the result is the documented preimage relative to the
+operands as they were PROVIDED the partners are neighbours in the order the manager is left in
+(the order of the call when no request was served, the order chosen by sifting otherwise). -/
+theorem preimage_transparent (ext : Nat → Nat) (hS : SiftContract ext) (m : Mgr)
+    (hD : DynInv ext m) (trans target : Int) (ht : HeldX ext trans) (hs : HeldX ext target)
+    (fa : Bool) (l : List (String × String)) (qs : List String)
+    (hpre : PreimagePreN target l qs m.tbl) :
+    ∃ r m', preimage trans target (l.map fun p => (Key.name p.1, Key.name p.2)) (qs.map Key.name)
+        fa m = (.ok r, m') ∧ DynPostG ext (PreimageDoc fa qs l trans target) m r m' := by
+  rw [preimage_names_eq m rfl hD.order trans target fa l qs hpre.keys hpre.decl hpre.qdecl]
+  refine tryToReorder_transparent ext hS _ [trans, target] (PreimagePreN target l qs)
+    (PreimageDoc fa qs l trans target) ?_ ?_ ?_ m hD ?_ hpre
+  · intro m0 hI0 hc hO hp hmem
+    exact preimageBody_out m0 hI0 (Or.inl hc) hO trans target (hmem trans (by simp))
+      (hmem target (by simp)) fa l qs hp
+  · intro t t' hB hp
+    exact hp.bridge hB
+  · intro t t' r t'' hB _ hdoc
+    refine ⟨hdoc.1, fun hadj σ => ?_⟩
+    rw [hdoc.2 hadj σ]
+    apply qsemN_congr
+    intro τ
+    rw [(hB.ops trans (by simp)).2 τ, (hB.ops target (by simp)).2]
+  · intro w hw
+    simp only [List.mem_cons, List.not_mem_nil, or_false] at hw
+    rcases hw with rfl | rfl
+    · exact ht
+    · exact hs
+
 end DD
